@@ -1,6 +1,7 @@
 package c06
 
 import (
+	"fmt"
 	"regexp"
 	"strconv"
 	"strings"
@@ -579,14 +580,27 @@ func parseDuration(v string) (d time.Duration, neg bool, ok bool) {
 
 const oodExdateList = "EXDATE property holding a list of values"
 
-// --- recurrence: the bounded family FREQ=DAILY|WEEKLY;COUNT=n[;INTERVAL=k] ----
+// --- recurrence: the family FREQ=SECONDLY|MINUTELY|HOURLY|DAILY|WEEKLY -------
+// [;COUNT=n | ;UNTIL=<UTC date-time>][;INTERVAL=k]: instance k starts k fixed
+// steps after DTSTART (on the UTC clock, or on a zone's wall clock for whole-day
+// steps). Without COUNT and UNTIL the series never ends.
 
 type recRule struct {
-	step  time.Duration
-	count int
-	freq  string
-	ival  int
+	step     time.Duration
+	count    int // 0: no COUNT
+	until    time.Time
+	hasUntil bool
+	freq     string
+	ival     int
 }
+
+var freqSteps = map[string]time.Duration{"SECONDLY": time.Second, "MINUTELY": time.Minute, "HOURLY": time.Hour,
+	"DAILY": 24 * time.Hour, "WEEKLY": 7 * 24 * time.Hour}
+
+const (
+	maxEnumCount = 1000     // series up to this COUNT are expanded instance by instance
+	maxCount     = 10000000 // longer ones are outside the family
+)
 
 func parseRRule(v string) (*recRule, bool) {
 	seen := map[string]bool{}
@@ -599,16 +613,22 @@ func parseRRule(v string) (*recRule, bool) {
 		seen[kv[0]] = true
 		switch kv[0] {
 		case "FREQ":
-			if kv[1] != "DAILY" && kv[1] != "WEEKLY" {
+			if freqSteps[kv[1]] == 0 {
 				return nil, false
 			}
 			rr.freq = kv[1]
 		case "COUNT":
 			n, err := strconv.Atoi(kv[1])
-			if err != nil || n < 1 || n > 1000 || !allDigits(kv[1]) {
+			if err != nil || n < 1 || n > maxCount || !allDigits(kv[1]) {
 				return nil, false
 			}
 			rr.count = n
+		case "UNTIL":
+			t, err := time.Parse(utcLayout, kv[1])
+			if err != nil {
+				return nil, false
+			}
+			rr.until, rr.hasUntil = t, true
 		case "INTERVAL":
 			n, err := strconv.Atoi(kv[1])
 			if err != nil || n < 1 || n > 100 || !allDigits(kv[1]) {
@@ -619,14 +639,34 @@ func parseRRule(v string) (*recRule, bool) {
 			return nil, false
 		}
 	}
-	if rr.freq == "" || rr.count == 0 {
+	if rr.freq == "" || (rr.count != 0 && rr.hasUntil) {
 		return nil, false
 	}
-	rr.step = time.Duration(rr.ival) * 24 * time.Hour
-	if rr.freq == "WEEKLY" {
-		rr.step *= 7
-	}
+	rr.step = time.Duration(rr.ival) * freqSteps[rr.freq]
 	return rr, true
+}
+
+// enumerable: the series is short enough to be listed instance by instance.
+func (rr *recRule) enumerable() bool {
+	return rr.count >= 1 && rr.count <= maxEnumCount && !rr.hasUntil
+}
+
+// wholeDays: the step is a number of calendar days (DAILY, WEEKLY).
+func (rr *recRule) wholeDays() bool { return rr.freq == "DAILY" || rr.freq == "WEEKLY" }
+
+// spell renders the rule the way the generators write it.
+func (rr *recRule) spell() string {
+	s := "FREQ=" + rr.freq
+	if rr.count != 0 {
+		s += fmt.Sprintf(";COUNT=%d", rr.count)
+	}
+	if rr.hasUntil {
+		s += ";UNTIL=" + rr.until.UTC().Format(utcLayout)
+	}
+	if rr.ival != 1 {
+		s += fmt.Sprintf(";INTERVAL=%d", rr.ival)
+	}
+	return s
 }
 
 // --- VEVENT intervals (RFC 4791 9.9) ------------------------------------------
@@ -697,6 +737,7 @@ func eventInterval(c Comp, z *time.Location) (evInterval, string) {
 		return iv, "DTSTART: " + why
 	}
 	iv.S = S
+	mixed := false // DTSTART and DTEND: one absolute, the other floating
 	switch {
 	case len(ends) == 1:
 		et, why := parseCalTime(ends[0])
@@ -709,6 +750,7 @@ func eventInterval(c Comp, z *time.Location) (evInterval, string) {
 		if !et.abs {
 			iv.floating = true
 		}
+		mixed = et.abs != st.abs
 		E, why := et.resolve(z)
 		if why != "" {
 			return iv, "DTEND: " + why
@@ -758,14 +800,21 @@ func eventInterval(c Comp, z *time.Location) (evInterval, string) {
 		}
 		rr, ok := parseRRule(rules[0].Value)
 		if !ok {
-			return iv, "recurrence outside the bounded family (FREQ=DAILY|WEEKLY;COUNT[;INTERVAL])"
+			return iv, "recurrence outside the bounded family (FREQ=SECONDLY..WEEKLY[;COUNT|;UNTIL][;INTERVAL])"
+		}
+		if rr.hasUntil && rr.until.Before(S) {
+			return iv, "recurrence outside the bounded family (UNTIL before DTSTART)"
 		}
 		switch {
-		case iv.floating:
-			return iv, "recurrence outside the bounded family (floating or DATE DTSTART)"
+		case iv.floating && (st.abs || mixed || !(rr.enumerable() && rr.wholeDays())):
+			return iv, "recurrence outside the bounded family (a floating or DATE DTSTART needs FREQ=DAILY|WEEKLY, a COUNT up to 1000 and an end of its own kind)"
 		case st.spelling == "utc":
 			iv.rec = rr
-		case st.spelling == "tzid":
+		case st.spelling == "tzid" && !(rr.enumerable() && rr.wholeDays()):
+			return iv, "recurrence outside the bounded family (a TZID DTSTART needs FREQ=DAILY|WEEKLY and a COUNT up to 1000)"
+		case st.spelling == "tzid" || iv.floating:
+			// The series runs on a wall clock: the zone named by TZID, or - for
+			// a floating or DATE DTSTART - the zone of interpretation z.
 			iv.rec, iv.wall = rr, S.Location()
 			// Every instance must start at a local time that exists exactly
 			// once and lies at least 3 h from any UTC-offset transition, and
@@ -788,8 +837,8 @@ func eventInterval(c Comp, z *time.Location) (evInterval, string) {
 	if exs := propsNamed(c, "EXDATE"); len(exs) > 0 {
 		// Bounded family: UTC DATE-TIME exception dates on a recurring event
 		// with a UTC DTSTART; each must name the start of an instance.
-		if iv.rec == nil || iv.wall != nil || st.spelling != "utc" {
-			return iv, "EXDATE outside the bounded family (needs a recurring event with a UTC DTSTART)"
+		if iv.rec == nil || iv.wall != nil || st.spelling != "utc" || !iv.rec.enumerable() {
+			return iv, "EXDATE outside the bounded family (needs a recurring event with a UTC DTSTART and a COUNT up to 1000)"
 		}
 		starts := map[int64]bool{}
 		for _, in := range iv.instances() {
@@ -822,7 +871,8 @@ func eventInterval(c Comp, z *time.Location) (evInterval, string) {
 	return iv, ""
 }
 
-// instances lists the [start, end) intervals of all instances.
+// instances lists the [start, end) intervals of all instances of a
+// non-recurring event or of an enumerable series.
 func (iv evInterval) instances() [][2]time.Time {
 	if iv.rec == nil {
 		return [][2]time.Time{{iv.S, iv.E}}
@@ -840,6 +890,59 @@ func (iv evInterval) instances() [][2]time.Time {
 			continue
 		}
 		out = append(out, [2]time.Time{s, s.Add(d)})
+	}
+	return out
+}
+
+// horizon: series that are not listed instance by instance are judged only for
+// ranges that begin (open start: end) within this distance of DTSTART.
+const horizon = 200 * 365 * 24 * time.Hour
+
+// near lists the instances that can decide whether the range rs..re overlaps
+// the series: all of them for an enumerable series; otherwise (fixed steps on
+// the UTC clock, no exceptions; COUNT, UNTIL - inclusive - or no end at all)
+// the instances whose number is within a few steps of the place where the
+// range begins, plus the first and the last one. Instance k is [S+k*step,
+// S+k*step+d): an earlier one than those listed ends before the range begins,
+// a later one starts after the listed ones, which already start after the
+// range's first instant - so it overlaps only if a listed one does.
+func (iv evInterval) near(rs time.Time, openStart bool) [][2]time.Time {
+	if iv.rec == nil || iv.rec.enumerable() {
+		return iv.instances()
+	}
+	d := iv.E.Sub(iv.S)
+	step := iv.rec.step
+	last := int64(-1) // number of the last instance; -1: none (endless)
+	switch {
+	case iv.rec.count != 0:
+		last = int64(iv.rec.count) - 1
+	case iv.rec.hasUntil:
+		last = int64(iv.rec.until.Sub(iv.S) / step)
+	}
+	var k0 int64
+	if !openStart && rs.After(iv.S) {
+		k0 = int64(rs.Sub(iv.S)/step) - int64(d/step) - 2
+	}
+	if k0 < 0 {
+		k0 = 0
+	}
+	k1 := k0 + 5 + int64(d/step)
+	var out [][2]time.Time
+	add := func(k int64) {
+		if k < 0 || (last >= 0 && k > last) || k > int64(horizon/step)+int64(d/step)+8 {
+			return // no such instance, or one beyond the horizon (it decides nothing)
+		}
+		s := iv.S.Add(time.Duration(k) * step)
+		out = append(out, [2]time.Time{s, s.Add(d)})
+	}
+	if k0 > 0 {
+		add(0)
+	}
+	for k := k0; k <= k1; k++ {
+		add(k)
+	}
+	if last > k1 {
+		add(last)
 	}
 	return out
 }
@@ -899,8 +1002,18 @@ func (r *refEval) compTimeRange(f CompFilter, c Comp) tri {
 			r.flagOOD(why)
 			return triU
 		}
+		if iv.rec != nil && !iv.rec.enumerable() {
+			anchor := rs
+			if f.Start.open() {
+				anchor = re
+			}
+			if anchor.Sub(iv.S) > horizon {
+				r.flagOOD("range more than 200 years after the DTSTART of a long or endless series")
+				return triU
+			}
+		}
 		hit := false
-		for _, in := range iv.instances() {
+		for _, in := range iv.near(rs, f.Start.open()) {
 			if overlaps(rs, re, f.Start.open(), f.End.open(), in[0], in[1], iv.instant) {
 				hit = true
 			}
